@@ -66,6 +66,11 @@ class SysHandler(object):
 
     def _quit(self):
         arbiter = self.controller.arbiter
+        if arbiter._restarting:
+            # the arbiter is going down in order to be started again: every
+            # command is refused until it is. Let it go down and stay down.
+            arbiter._restarting = False
+            return
         if (arbiter._exclusive_running_command is not None and
                 not arbiter._stopping):
             # an exclusive operation is in flight: the quit would be refused
